@@ -7,17 +7,18 @@
 package c16
 
 import (
-	"strconv"
-	"os"
-	"runtime"
 	"bytes"
 	"database/sql"
 	"encoding/json"
+	"errors"
 	"fmt"
 	"net"
 	"net/http/httptest"
+	"os"
 	"path/filepath"
+	"runtime"
 	"sort"
+	"strconv"
 	"strings"
 	"time"
 
@@ -55,6 +56,8 @@ func alphabet() []op {
 		// names that differ from n1 / n2 only in case, or that are a pattern matching them: distinct names
 		op{"addSMB", "N1", ""}, op{"addSMB", "n_", ""},
 		op{"svcUp", "s1", ""}, op{"svcUp", "s2", ""}, op{"svcDown", "s1", ""}, op{"svcDown", "s2", ""},
+		// the connection is reset instead of closed: the teamserver's own Close() of it reports an error
+		op{"svcDownReset", "s1", ""},
 		op{"addSvc", "n1", "s1"}, op{"addSvc", "n2", "s2"}, op{"addExC2", "n2", "s1"}, op{"addExC2", "n1", "s1"}, op{"addExC2", "n1", "s2"}, op{"addExC2x2", "x1", "s1"})
 	return a
 }
@@ -285,8 +288,11 @@ func (w *world) apply(o op) {
 			"SupportedOS": []string{"linux"}, "Formats": []any{}, "Commands": []any{}, "BuildingConfig": map[string]any{}}}})
 		w.svcSend(s, map[string]any{"Head": map[string]any{"Type": "Listener"}, "Body": map[string]any{"Type": "ListenerAdd", "Listener": map[string]any{
 			"Name": "proto-" + o.name, "Agent": "agent-" + o.name, "Items": []any{}}}})
-	case "svcDown":
+	case "svcDown", "svcDownReset":
 		s := w.svc[o.name]
+		if o.kind == "svcDownReset" {
+			s.ws.Raw.CloseErr = errors.New("write tcp 127.0.0.1:40056->10.1.1.1:50000: write: broken pipe")
+		}
 		s.ws.Raw.ClosePeer()
 		if !waitDone(s.done) {
 			w.panics = append(w.panics, "service connection handler did not return after the peer closed")
@@ -315,7 +321,7 @@ func (w *world) enabled(maxRemoves int) []int {
 			if s := w.svc[o.name]; s != nil {
 				continue // one life per connection per history
 			}
-		case "svcDown":
+		case "svcDown", "svcDownReset":
 			if s := w.svc[o.name]; s == nil || !s.up {
 				continue
 			}
